@@ -611,14 +611,19 @@ impl LyNative for IterReduce {
     let mut accumulator = args[1];
     let callable = args[2];
 
-    hooks.push_root(accumulator);
     hooks.push_root(callable);
+    hooks.push_root(accumulator);
 
     let mut iter = args[0].to_obj().to_enumerator();
 
     while !is_falsey(iter.next(hooks)?) {
       let current = iter.current();
       accumulator = hooks.call(callable, &[accumulator, current])?;
+
+      // the value the callback returned is held by nothing else while the
+      // iterator and the next callback allocate
+      hooks.pop_roots(1);
+      hooks.push_root(accumulator);
     }
 
     hooks.pop_roots(2);
